@@ -11,7 +11,7 @@ QUICK_CASES = 700  # generator items in the quick tier (fixed amount of work; BU
 FLOOR = {"quick": 200, "thorough": 1500}
 TIMEOUT = 120
 HASHSEEDS = {"quick": [0, 1, 2, 3], "thorough": list(range(16))}
-REQUIRED_OBS = ["deactivations", "occurrence_phases", "runs_observed", "residue_snapshots", "startup_runs", "shutdown_runs", "closure_instances"]
+REQUIRED_OBS = ["deactivations", "occurrence_phases", "runs_observed", "residue_snapshots", "startup_runs", "shutdown_runs", "closure_instances", "redefined_at_load"]
 RULE = (
     "random lifetime histories over two script files: module-level functions and factory-made closures (kept in a list / dict: append, pop, "
     "clear, overwrite, del) carrying any mix of @state_trigger (single name, or value + .old + attribute of one entity plus a second entity), "
@@ -65,7 +65,12 @@ class Model:
         extras = []
         if "time" in trigs:
             extras = r.choice([[], ["startup"], ["shutdown"], ["startup", "shutdown"]])
-        return {"gen": self.gen, "name": name, "trigs": sorted(trigs), "extras": extras, "where": where}
+        inst = {"gen": self.gen, "name": name, "trigs": sorted(trigs), "extras": extras, "where": where}
+        if where in ("a.py", "b.py") and r.random() < 0.25:
+            # the file defines the function twice: the first definition is dead as soon as the second one replaces it
+            self.gen += 1
+            inst["shadow"] = {"gen": self.gen, "name": name, "trigs": sorted(r.sample(["state", "event", "time", "service"], r.randint(1, 3))), "extras": [], "where": where}
+        return inst
 
     def live(self):
         out = []
@@ -78,6 +83,8 @@ class Model:
     def render_file(self, fname):
         lines = []
         for inst in self.files[fname].values():
+            if inst.get("shadow"):
+                lines += render_inst(inst["shadow"])
             lines += render_inst(inst)
         if fname == "a.py":
             lines += FACTORY.split("\n")
@@ -235,6 +242,9 @@ def run_case(case):
     sigs = []
 
     def note_new(inst):
+        if inst.get("shadow"):
+            m.dead[inst["shadow"]["gen"]] = inst["shadow"]
+            obs["redefined_at_load"] += 1
         if "startup" in inst["extras"] and "time" in inst["trigs"]:
             startup_exp[inst["gen"]] = 1
         obs["closure_instances"] += int(inst["where"] in ("list", "dict"))
